@@ -203,6 +203,51 @@ def run(report, p):
         r5.instance(f, f.node, f"entry point {ep}")
         r5.check(any(q in p.reachable([f.qual]) for q in loop_q), f, f.node, f"hasher.{ep} does not reach a read loop", construct=f"{ep} routing")
 
+    # ------------------------------------------------------------------ R1.7
+    r7 = report.rule(
+        "R1.7",
+        "no memoisation on the digest path: no function through which a file digest is obtained (every function from which a read loop is reachable, and the hasher module itself) "
+        "is wrapped in a cache decorator - a digest must be computed from the bytes read now, not recalled by (path, size, mtime)",
+        10,
+    )
+    for fq, f in sorted(p.funcs.items()):
+        if f.module.name in unshipped:
+            continue
+        on_path = f.module.name.endswith("hasher") or any(q in loop_q for q in p.reachable([fq]))
+        if not on_path:
+            continue
+        r7.instance(f, f.node, f.qual)
+        r7.check(not f.memoised, f, f.node, f"{f.qual} is memoised ({', '.join(d for d in f.decorators)}): a file whose content was replaced without changing what the cache is keyed by (same size and modification time) gets the remembered digest instead of the digest of its bytes", construct=f"memoised digest function {f.name}")
+
+    # hand-rolled caches: a module-level container that is created empty and filled inside a function on the digest path
+    for m in p.modules.values():
+        if m.name in unshipped:
+            continue
+        empties = {}
+        for st in m.tree.body:
+            if isinstance(st, (ast.Assign, ast.AnnAssign)) and st.value is not None:
+                v = st.value
+                if (isinstance(v, ast.Dict) and not v.keys) or (isinstance(v, ast.Call) and norm(v.func) in ("dict", "collections.OrderedDict", "OrderedDict", "collections.defaultdict", "defaultdict", "weakref.WeakValueDictionary") and not v.args):
+                    for t in (st.targets if isinstance(st, ast.Assign) else [st.target]):
+                        if isinstance(t, ast.Name):
+                            empties[t.id] = st
+        if not empties:
+            continue
+        for fq, f in sorted(p.funcs.items()):
+            if f.module is not m or not (m.name.endswith("hasher") or any(q in loop_q for q in p.reachable([fq]))):
+                continue
+            for n in walk_no_nested(f.node):
+                tgt = None
+                if isinstance(n, ast.Assign):
+                    for t in n.targets:
+                        if isinstance(t, ast.Subscript) and isinstance(t.value, ast.Name) and t.value.id in empties:
+                            tgt = t.value.id
+                elif isinstance(n, ast.Call) and isinstance(n.func, ast.Attribute) and n.func.attr in ("setdefault", "update") and isinstance(n.func.value, ast.Name) and n.func.value.id in empties:
+                    tgt = n.func.value.id
+                if tgt is not None and tgt not in f.params and not any(isinstance(x, ast.Name) and isinstance(x.ctx, ast.Store) and x.id == tgt for x in walk_no_nested(f.node)):
+                    r7.instance(f, n, f"module-level container {tgt} filled in {f.name}")
+                    r7.check(False, f, n, f"{f.qual} fills the module-level container `{tgt}` (created empty at {m.name}:{empties[tgt].lineno}): results on the digest path are remembered across calls", construct=f"module-level cache {tgt} on the digest path")
+
     report.not_decided += ["that hashlib/xxhash implement the standard algorithms", "the base-58 conversion for all 512-bit values (only its constants, direction and encoder/decoder agreement)", "digests of concrete files"]
 
 
